@@ -339,11 +339,36 @@ def r3(ctx, chk):
                "is used (its date order and words, not the locale's)" % [a for a, _ in atoms],
                key={"function": cl.key, "construct": "region guard"}, file=cl.file, function=cl.qual, line=c.lineno)
     iv = ix.func("dateparser.languages.loader:_isvalidlocale")
-    t3 = " ".join(ast.unparse(iv.node).split())
-    ok = _re.search(r"(\w+) not in language_order", t3) is not None and _re.search(r"language_locale_dict\[(\w+)\]", t3) is not None \
-        and _re.search(r"locale == (\w+) or locale in (\w+)", t3) is not None
-    chk.ob(rule, "a locale is valid iff its language is known and it is the language itself or one of its listed locales", ok, "",
-           key={"function": iv.key, "construct": "valid locale"}, file=iv.file, function=iv.qual, line=iv.node.lineno)
+    # decided by evaluating the function over a small universe of names (two languages, one with a regional locale)
+    from ..core.minieval import Evaluator, Unknown
+    order_, index_ = ["en", "fr"], {"en": ["en-GB"], "fr": []}
+    p_ = iv.params()[0]
+    wrong = []
+    try:
+        for name in ("en", "fr", "en-GB", "en-XX", "fr-GB", "zz", "zz-GB"):
+            def oracle(e, env, name=name):
+                t_ = " ".join(ast.unparse(e).split())
+                if t_ in ("LOCALE_SPLIT_PATTERN.split(%s)" % p_,):
+                    return name.split("-")
+                if isinstance(e, ast.Name) and e.id == "language_order":
+                    return order_
+                if isinstance(e, ast.Name) and e.id == "language_locale_dict":
+                    return index_
+                raise Unknown(t_[:40])
+            got = bool(Evaluator(oracle).call(iv.node, {p_: name}))
+            lang = name.split("-")[0]
+            want = lang in order_ and (name == lang or name in index_[lang])
+            if got != want:
+                wrong.append((name, got))
+    except Unknown as e_:
+        chk.error(rule, "_isvalidlocale: the answer is computed by something this rule cannot evaluate (%s)" % e_)
+        wrong = None
+    except KeyError as e_:
+        wrong = [("KeyError", str(e_))]
+    if wrong is not None:
+        chk.ob(rule, "a locale is valid iff its language is known and it is the language itself or one of its listed locales", not wrong,
+               "(name, answer) that differ: %s" % wrong[:3],
+               key={"function": iv.key, "construct": "valid locale"}, file=iv.file, function=iv.qual, line=iv.node.lineno)
     # Locale construction overlays locale_specific for exactly the shortname
     li = ix.func("dateparser.languages.locale:Locale.__init__")
     t4 = " ".join(ast.unparse(li.node).split())
